@@ -21,7 +21,10 @@ theorem backends_agree_on_any_stream (spec : AbsSpec) (cfg : Cfg) (hw : WellBeha
     (hsame : (readsA.map (·.2)).flatten = (readsB.map (·.2)).flatten) :
     ((feedAll spec cfg Eng.init readsA).1.eraseClock = (feedAll spec cfg Eng.init readsB).1.eraseClock)
     ∧ (feedAll spec cfg Eng.init readsA).2 = (feedAll spec cfg Eng.init readsB).2 := by
-  sorry
+  have hprod : ∀ k h n, Eng.init.mech = .abs k h n → n ≤ 8 := by intro k h n hm; cases hm
+  have hA := C04.engine_outputs_clock_independent spec hw cfg 0 Eng.init (C04.quiescent_init spec cfg) hprod readsA
+  have hB := C04.engine_outputs_clock_independent spec hw cfg 0 Eng.init (C04.quiescent_init spec cfg) hprod readsB
+  exact ⟨by rw [hA.2, hB.2, hsame], by rw [hA.1, hB.1, hsame]⟩
 
 -- the send-buffer pool -------------------------------------------------------------------------------------------------
 
@@ -29,7 +32,7 @@ theorem backends_agree_on_any_stream (spec : AbsSpec) (cfg : Cfg) (hw : WellBeha
 that are not in use, double releases and unknown ids) keeps the bookkeeping consistent -/
 theorem pool_always_consistent (count cap : Nat) (evs : List PoolEv) :
     (Pool.run (Pool.new count cap) evs).Consistent := by
-  sorry
+  exact (Pool.reachable_inv count cap evs).1
 
 /-- no buffer is ever handed out while it is still in use: an id that is handed out was free, and is marked in use afterwards -/
 theorem pool_hands_out_only_free_buffers (count cap : Nat) (evs : List PoolEv) (e : PoolEv) (id : Nat)
@@ -37,7 +40,7 @@ theorem pool_hands_out_only_free_buffers (count cap : Nat) (evs : List PoolEv) (
     id ∈ (Pool.run (Pool.new count cap) evs).free
     ∧ ((Pool.run (Pool.new count cap) evs).step e).1.used[id]? = some true
     ∧ id ∉ ((Pool.run (Pool.new count cap) evs).step e).1.free := by
-  sorry
+  exact Pool.step_some (Pool.reachable_inv count cap evs).1 h
 
 /-- buffers are always given back: once every buffer that was handed out has been released (by the kernel notification or
 by the drop of a lease that never reached the worker), the whole pool is free again — sustained traffic and churn cannot
@@ -45,17 +48,29 @@ exhaust it -/
 theorem pool_never_leaks (count cap : Nat) (evs : List PoolEv)
     (hall : ∀ id, id < count → (Pool.run (Pool.new count cap) evs).used[id]? = some false) :
     (Pool.run (Pool.new count cap) evs).free.length = (Pool.new count cap).used.length := by
-  sorry
+  have hlen := Pool.run_used_length (Pool.new count cap) evs
+  rw [← hlen]
+  refine ConsL.length_free_of_all_unused (Pool.reachable_inv count cap evs).1 fun id hid => hall id ?_
+  exact Nat.lt_of_lt_of_le (hlen ▸ hid) (Pool.new_used_length_le count cap)
 
 /-- a lease dropped before it reached the worker gives its buffer back by itself; one that was handed over does not (the
 worker releases it on the kernel's notification) -/
-theorem dropped_lease_returns_buffer (p : Pool) (hc : p.Consistent) (id : Nat) (h : (id, false) ∈ p.leases)
+theorem dropped_lease_returns_buffer (count cap : Nat) (evs : List PoolEv) (id : Nat)
+    (h : (id, false) ∈ ((Pool.new count cap).run evs).leases)
+    (huniq : ((((Pool.new count cap).run evs).leases).filter (·.1 == id)).length = 1) :
+    id ∈ (((Pool.new count cap).run evs).step (.dropLease id)).1.free := by
+  exact dropped_lease_returns_buffer_reachable count cap evs id h huniq
+
+/-- … whereas a lease that was handed over only disappears: its buffer stays in use until the worker releases it -/
+theorem handed_over_lease_keeps_its_buffer (p : Pool) (id : Nat) (h : (id, true) ∈ p.leases)
     (huniq : (p.leases.filter (·.1 == id)).length = 1) :
-    id ∈ (p.step (.dropLease id)).1.free := by
-  sorry
+    (p.step (.dropLease id)).1 = { p with leases := p.leases.filter (·.1 != id) } := by
+  exact handed_over_lease_keeps_buffer p id h huniq
 
 /-- the zero-copy path is only taken for data that fits the buffer; otherwise the caller falls back to the copying path -/
 theorem oversize_never_takes_a_buffer (p : Pool) (len : Nat) (h : p.cap < len) : p.step (.acquire len) = (p, none) := by
-  sorry
+  have hz : ¬ len = 0 := by omega
+  have hlt : ¬ len ≤ p.cap := by omega
+  cases hf : p.free <;> simp [Pool.step, hf, hz, hlt]
 
 end Rzmq.C20
